@@ -121,9 +121,7 @@ def handle (op : String) (j : Json) : Option Json :=
     | some base =>
       match (getList? j "groups").bind (·.mapM (wgroup? base)) with
       | some gs =>
-        let cfgOf : String → Cfg := fun chrom => match gs.find? (·.1 = chrom) with | some g => g.2.1 | none => base
-        some (ofList (fun g => Json.mkObj [("chrom", Json.str g.1), ("records", ofList ofRecord g.2)])
-          (writeFile cfgOf (gs.map fun g => (g.1, g.2.2))))
+        some (ofList (fun g => Json.mkObj [("chrom", Json.str g.1), ("records", ofList ofRecord g.2)]) (writeFile gs))
       | none => some badInput
     | none => some badInput
   else none
